@@ -299,6 +299,7 @@ def generate() -> str:
 
 
 EXTRA_SECTIONS: list = []
+from extract_prov import section as _prov_section; EXTRA_SECTIONS.append(_prov_section)  # M7 (C18)
 
 
 def main(write: bool = True) -> int:
